@@ -643,6 +643,9 @@ func (c *ctx) encodeOps(fd *ast.FuncDecl) []Op {
 		dropped := false
 		if e, ok := errIf(s); ok {
 			call = e
+		} else if e, ok := errAssign(s); ok && i+1 < len(stmts) && plainErrIf(stmts[i+1]) {
+			call = e
+			i++
 		} else if es, ok := s.(*ast.ExprStmt); ok { // hand-written: result dropped
 			call = es.X
 			dropped = true
@@ -709,6 +712,36 @@ func (c *ctx) encodeOps(fd *ast.FuncDecl) []Op {
 		ops = append(ops, c.opaque(s))
 	}
 	return ops
+}
+
+// "if err != nil { return … err … }" without an initialiser
+func plainErrIf(s ast.Stmt) bool {
+	is, ok := s.(*ast.IfStmt)
+	return ok && is.Init == nil && is.Else == nil && isErrNotNil(is.Cond) && returnsErr(is.Body)
+}
+
+// "X, err := CALL" / "X, err = CALL" (X an identifier or a receiver field) -> CALL, X-as-expression
+func twoAssign(s ast.Stmt) (ast.Expr, ast.Expr, bool) {
+	as, ok := s.(*ast.AssignStmt)
+	if !ok || len(as.Lhs) != 2 || len(as.Rhs) != 1 {
+		return nil, nil, false
+	}
+	if id, ok := as.Lhs[1].(*ast.Ident); !ok || id.Name != "err" {
+		return nil, nil, false
+	}
+	return as.Rhs[0], as.Lhs[0], true
+}
+
+// "err := CALL" / "err = CALL"
+func errAssign(s ast.Stmt) (ast.Expr, bool) {
+	as, ok := s.(*ast.AssignStmt)
+	if !ok || len(as.Lhs) != 1 || len(as.Rhs) != 1 {
+		return nil, false
+	}
+	if id, ok := as.Lhs[0].(*ast.Ident); !ok || id.Name != "err" {
+		return nil, false
+	}
+	return as.Rhs[0], true
 }
 
 // ---- Decode ---------------------------------------------------------------------------------------
@@ -821,6 +854,28 @@ func (c *ctx) decodeOps(fd *ast.FuncDecl) []Op {
 		// "var err error"
 		if ds, ok := s.(*ast.DeclStmt); ok && src(ds) == "var err error" {
 			continue
+		}
+		// alternative shapes of a field read:  "v, err := READ; if err != nil {return err}; p.F = v"  and
+		// "p.F, err = READ; if err != nil {return err}"
+		if call, lhs, ok := twoAssign(s); ok && i+1 < len(stmts) && plainErrIf(stmts[i+1]) {
+			if _, _, _, isCodec := codecCall(call); isCodec {
+				if f, ok := recvField(lhs, c.recv); ok {
+					ops = append(ops, c.readCallOp(s, call, f))
+					i++
+					continue
+				}
+				if id, ok := lhs.(*ast.Ident); ok && i+2 < len(stmts) {
+					if as2, ok := stmts[i+2].(*ast.AssignStmt); ok && as2.Tok == token.ASSIGN && len(as2.Lhs) == 1 && len(as2.Rhs) == 1 {
+						if f, ok := recvField(as2.Lhs[0], c.recv); ok {
+							if r, ok := as2.Rhs[0].(*ast.Ident); ok && r.Name == id.Name {
+								ops = append(ops, c.readCallOp(s, call, f))
+								i += 2
+								continue
+							}
+						}
+					}
+				}
+			}
 		}
 		// union: factory then Decode
 		if call, f, ok := valIf(s, c.recv); ok {
